@@ -50,6 +50,8 @@ var targets = []target{
 	{dir: ".", files: []string{"message.go", "message_fields.go"}, funcs: []string{"newMessageField", "messageField.IsSet",
 		"messageField.String", "messageField.UnmarshalText", "NewID", "NewType",
 		"Message.appendText", "Message.AppendData", "Message.AppendComment"}, out: "Fields"},
+	{dir: ".", files: []string{"message.go", "message_fields.go"}, funcs: []string{"writeString", "chunk.WriteTo",
+		"Message.writeMessageField", "Message.writeID", "Message.writeType", "Message.writeRetry", "Message.WriteTo"}, out: "Write"},
 }
 
 func die(pos token.Position, format string, a ...any) {
@@ -80,6 +82,18 @@ type tr struct {
 	fname          string // Lean name of the current function
 	nloop          int
 	njoin          int
+	sigs           map[string]*fsig
+	usesWriter     bool
+	files          []*ast.File
+}
+
+// fsig: how a translated function is called — results first, then the in/out values it hands back
+type fsig struct {
+	nres     int
+	recvIO   bool   // pointer receiver: passed in and returned
+	recvMod  bool   // … and possibly changed
+	paramIO  []bool // per parameter: in/out (pointer, io.Writer)
+	paramMod []bool
 }
 
 func (t *tr) pos(n ast.Node) token.Position { return t.fset.Position(n.Pos()) }
@@ -119,6 +133,13 @@ func (t *tr) leanType(ty types.Type, at ast.Node) string {
 	case *types.Named:
 		if u.Obj().Pkg() != nil && u.Obj().Pkg().Path() == "io" && u.Obj().Name() == "Reader" {
 			return "Reader" // the byte source of GoRT
+		}
+		if u.Obj().Pkg() != nil && u.Obj().Pkg().Path() == "io" && u.Obj().Name() == "Writer" {
+			t.usesWriter = true
+			return "(Writer σ)" // any writer: a state and a transition function
+		}
+		if u.Obj().Pkg() != nil && u.Obj().Pkg().Path() == "time" && u.Obj().Name() == "Duration" {
+			return "Int"
 		}
 		if u.Obj().Pkg() != nil && u.Obj().Pkg().Path() == "bufio" && u.Obj().Name() == "SplitFunc" {
 			return "(Bytes → Bool → GoM (Int × (Option Bytes) × (Option String)))"
@@ -169,6 +190,10 @@ func (t *tr) leanType(ty types.Type, at ast.Node) string {
 			return "Bytes"
 		}
 		return "(List " + t.leanType(u.Elem(), at) + ")"
+	case *types.Array:
+		if bb, ok := u.Elem().Underlying().(*types.Basic); ok && bb.Kind() == types.Uint8 {
+			return "Bytes" // a fixed-size byte array, as a list of that length
+		}
 	case *types.Pointer:
 		return t.leanType(u.Elem(), at)
 	case *types.Interface:
@@ -189,6 +214,9 @@ func (t *tr) varType(v *types.Var, at ast.Node) string {
 }
 
 func (t *tr) zero(ty types.Type, at ast.Node) string {
+	if arr, ok := ty.Underlying().(*types.Array); ok {
+		return fmt.Sprintf("(List.replicate %d (0 : UInt8))", arr.Len())
+	}
 	switch t.leanType(ty, at) {
 	case "Int":
 		return "(0 : Int)"
@@ -223,6 +251,46 @@ func fieldName(n string) string {
 		return n + "'"
 	}
 	return n
+}
+
+// pkgVarBytes: the constant value of a package-level []byte variable
+func (t *tr) pkgVarBytes(v *types.Var) (string, bool) {
+	for _, f := range t.files {
+		for _, d := range f.Decls {
+			gd, ok := d.(*ast.GenDecl)
+			if !ok || gd.Tok != token.VAR {
+				continue
+			}
+			for _, sp := range gd.Specs {
+				vs := sp.(*ast.ValueSpec)
+				for i, id := range vs.Names {
+					if t.info.Defs[id] != types.Object(v) || i >= len(vs.Values) {
+						continue
+					}
+					switch init := vs.Values[i].(type) {
+					case *ast.CallExpr: // []byte(constant string)
+						if len(init.Args) == 1 {
+							if tv, ok := t.info.Types[init.Args[0]]; ok && tv.Value != nil && tv.Value.Kind() == constant.String {
+								return bytesLit(constant.StringVal(tv.Value)), true
+							}
+						}
+					case *ast.CompositeLit: // []byte{'a', 'b'}
+						var bs []byte
+						for _, el := range init.Elts {
+							tv, ok := t.info.Types[el]
+							if !ok || tv.Value == nil {
+								return "", false
+							}
+							n, _ := constant.Int64Val(tv.Value)
+							bs = append(bs, byte(n))
+						}
+						return bytesLit(string(bs)), true
+					}
+				}
+			}
+		}
+	}
+	return "", false
 }
 
 // structLit: a struct value with the given field values, zero values elsewhere
@@ -311,6 +379,10 @@ func (t *tr) expr(e *em, x ast.Expr) string {
 				if t.leanType(vv.Type(), x) == "(Option String)" {
 					return fmt.Sprintf("(some %q)", v.Name)
 				}
+				// a package-level byte slice with a constant initialiser ([]byte("…"), []byte{'…'}) is its value
+				if val, ok := t.pkgVarBytes(vv); ok {
+					return val
+				}
 				die(t.pos(x), "package-level variable %s", v.Name)
 			}
 			return t.nameOf(o)
@@ -383,7 +455,7 @@ func (t *tr) expr(e *em, x ast.Expr) string {
 			if lt == "Bytes" {
 				return "(" + l + " ++ " + r + ")"
 			}
-			if lt == "Int" {
+			if lt == "Int" || lt == "UInt8" {
 				return "(" + l + " + " + r + ")"
 			}
 		case token.SUB:
@@ -393,6 +465,10 @@ func (t *tr) expr(e *em, x ast.Expr) string {
 		case token.MUL:
 			if lt == "Int" {
 				return "(" + l + " * " + r + ")"
+			}
+		case token.REM:
+			if tv, ok := t.info.Types[v.Y]; ok && tv.Value != nil && lt == "Int" && constant.Sign(tv.Value) > 0 {
+				return "(Int.tmod " + l + " " + r + ")"
 			}
 		case token.QUO:
 			// integer division by a positive constant (Go truncates toward zero)
@@ -462,6 +538,12 @@ func (t *tr) call(e *em, v *ast.CallExpr) string {
 		}
 		from := t.leanType(t.info.Types[v.Args[0]].Type, v)
 		to := t.leanType(tv.Type, v)
+		if from == "Int" && to == "UInt8" {
+			return "(UInt8.ofNat (Int.toNat (Int.emod " + t.expr(e, v.Args[0]) + " 256)))" // byte(x): the low 8 bits
+		}
+		if from == "UInt8" && to == "Int" {
+			return "((" + t.expr(e, v.Args[0]) + ").toNat : Int)"
+		}
 		if from != to {
 			die(t.pos(v), "conversion %s → %s", from, to)
 		}
@@ -506,6 +588,16 @@ func (t *tr) call(e *em, v *ast.CallExpr) string {
 		return "(stringsIndexByte " + t.expr(e, v.Args[0]) + " " + t.expr(e, v.Args[1]) + ")"
 	case "strings.HasPrefix":
 		return "(stringsHasPrefix " + t.expr(e, v.Args[0]) + " " + t.expr(e, v.Args[1]) + ")"
+	case "unsafe.Slice":
+		// unsafe.Slice(unsafe.StringData(s), len(s)) is s read as bytes
+		if len(v.Args) == 2 {
+			if c, ok := v.Args[0].(*ast.CallExpr); ok && types.ExprString(c.Fun) == "unsafe.StringData" && len(c.Args) == 1 {
+				if l, ok := v.Args[1].(*ast.CallExpr); ok && types.ExprString(l.Fun) == "len" &&
+					types.ExprString(l.Args[0]) == types.ExprString(c.Args[0]) {
+					return t.expr(e, c.Args[0])
+				}
+			}
+		}
 	case "unsafe.String":
 		// unsafe.String(unsafe.SliceData(x), len(x)) is x read as a string
 		if len(v.Args) == 2 {
@@ -559,6 +651,36 @@ func (t *tr) call(e *em, v *ast.CallExpr) string {
 			}
 		}
 	}
+	if sel, ok := v.Fun.(*ast.SelectorExpr); ok {
+		if sl, ok := t.info.Selections[sel]; ok && sl.Kind() == types.MethodVal {
+			recvT := sl.Recv()
+			if p, ok := recvT.(*types.Pointer); ok {
+				recvT = p.Elem()
+			}
+			if n, ok := recvT.(*types.Named); ok {
+				// time.Duration.Milliseconds(): nanoseconds / 1e6, truncated toward zero
+				if n.Obj().Pkg() != nil && n.Obj().Pkg().Path() == "time" && n.Obj().Name() == "Duration" && sel.Sel.Name == "Milliseconds" {
+					return "(Int.tdiv " + t.expr(e, sel.X) + " (1000000 : Int))"
+				}
+				// w.Write(p) on an io.Writer
+				if n.Obj().Pkg() != nil && n.Obj().Pkg().Path() == "io" && n.Obj().Name() == "Writer" && sel.Sel.Name == "Write" && len(v.Args) == 1 {
+					w := t.expr(e, sel.X)
+					r := t.fresh("w")
+					e.line("let %s := (%s).write (%s).st %s", r, w, w, t.expr(e, v.Args[0]))
+					t.assignTo(e, sel.X, "{ "+w+" with st := "+r+".2.2 }", false)
+					res := t.fresh("wr")
+					e.line("let %s : Int × (Option String) := (%s.1, %s.2.1)", res, r, r)
+					return res
+				}
+				if _, isIdent := sel.X.(*ast.Ident); !isIdent {
+					mname := n.Obj().Name() + "_" + sel.Sel.Name
+					if t.known[mname] {
+						return t.genericCall(e, mname, sel.X, v)
+					}
+				}
+			}
+		}
+	}
 	// a function translated earlier (same package, or parser.X from the root package)
 	fn := name
 	if i := strings.LastIndex(fn, "."); i >= 0 {
@@ -576,8 +698,8 @@ func (t *tr) call(e *em, v *ast.CallExpr) string {
 					if !t.known[mname] {
 						die(t.pos(v), "call of %s (not translated)", name)
 					}
-					if t.recv == nil || types.ExprString(sel.X) != t.recv.Name() {
-						die(t.pos(v), "method call on something other than the receiver")
+					if t.recv == nil || types.ExprString(sel.X) != t.recv.Name() || t.hasWriterArg(v) {
+						return t.genericCall(e, mname, sel.X, v)
 					}
 					return t.methodCall(e, mname, v)
 				}
@@ -587,6 +709,9 @@ func (t *tr) call(e *em, v *ast.CallExpr) string {
 	if !t.known[fn] {
 		die(t.pos(v), "call of %s (not translated)", name)
 	}
+	if t.hasWriterArg(v) {
+		return t.genericCall(e, fn, nil, v)
+	}
 	args := []string{"fuel"}
 	for _, a := range v.Args {
 		args = append(args, t.expr(e, a))
@@ -594,6 +719,94 @@ func (t *tr) call(e *em, v *ast.CallExpr) string {
 	n := t.fresh("r")
 	e.line("let %s ← %s %s", n, fn, strings.Join(args, " "))
 	return n
+}
+
+func (t *tr) hasWriterArg(v *ast.CallExpr) bool {
+	for _, a := range v.Args {
+		if tv, ok := t.info.Types[a]; ok {
+			if n, ok := tv.Type.(*types.Named); ok && n.Obj().Pkg() != nil && n.Obj().Pkg().Path() == "io" && n.Obj().Name() == "Writer" {
+				return true
+			}
+		}
+	}
+	return false
+}
+
+// genericCall: a call of a translated function or method with in/out values anywhere: the receiver (any expression)
+// and pointer / io.Writer arguments are passed in, and what comes back is stored where it came from — or dropped when
+// the callee provably leaves it alone and the expression is not a place that can be assigned
+func (t *tr) genericCall(e *em, callee string, recv ast.Expr, v *ast.CallExpr) string {
+	fs := t.sigs[callee]
+	if fs == nil {
+		die(t.pos(v), "call of %s (signature unknown)", callee)
+	}
+	args := []string{"fuel"}
+	type back struct {
+		x   ast.Expr
+		mod bool
+	}
+	var backs []back
+	if recv != nil {
+		args = append(args, t.expr(e, recv))
+		if fs.recvIO {
+			backs = append(backs, back{recv, fs.recvMod})
+		}
+	}
+	for i, a := range v.Args {
+		args = append(args, t.expr(e, a))
+		if i < len(fs.paramIO) && fs.paramIO[i] {
+			backs = append(backs, back{a, fs.paramMod[i]})
+		}
+	}
+	n := t.fresh("m")
+	e.line("let %s ← %s %s", n, callee, strings.Join(args, " "))
+	comps := fs.nres + len(backs)
+	proj := func(i int) string {
+		if comps == 1 {
+			return n
+		}
+		p := n
+		for j := 0; j < i; j++ {
+			p += ".2"
+		}
+		if i < comps-1 {
+			p += ".1"
+		}
+		return p
+	}
+	isPlace := func(x ast.Expr) bool {
+		switch d := x.(type) {
+		case *ast.Ident:
+			return true
+		case *ast.SelectorExpr:
+			_, ok := d.X.(*ast.Ident)
+			return ok
+		}
+		return false
+	}
+	for j, b := range backs {
+		if isPlace(b.x) {
+			t.assignTo(e, b.x, proj(fs.nres+j), false)
+		} else if b.mod {
+			die(t.pos(v), "in/out value %s is changed by %s and is not an assignable place", types.ExprString(b.x), callee)
+		}
+	}
+	switch fs.nres {
+	case 0:
+		return "()"
+	case 1:
+		return proj(0)
+	}
+	if len(backs) == 0 {
+		return n
+	}
+	var rs []string
+	for i := 0; i < fs.nres; i++ {
+		rs = append(rs, proj(i))
+	}
+	r := t.fresh("rs")
+	e.line("let %s := (%s)", r, strings.Join(rs, ", "))
+	return r
 }
 
 // copyCall: copy(dst, src) where dst is a local slice x or x[a:] — the write goes to x; the result is the count
@@ -903,6 +1116,13 @@ func (t *tr) simple(e *em, s ast.Stmt) {
 			for i, l := range v.Lhs {
 				t.assignTo(e, l, vals[i], define)
 			}
+		case token.QUO_ASSIGN:
+			if tv, ok := t.info.Types[v.Rhs[0]]; ok && tv.Value != nil && constant.Sign(tv.Value) > 0 &&
+				t.leanType(t.info.Types[v.Lhs[0]].Type, s) == "Int" {
+				t.assignTo(e, v.Lhs[0], "(Int.tdiv "+t.expr(e, v.Lhs[0])+" "+t.expr(e, v.Rhs[0])+")", false)
+				return
+			}
+			die(t.pos(s), "/= by something other than a positive constant")
 		case token.ADD_ASSIGN, token.SUB_ASSIGN:
 			op := "+"
 			if v.Tok == token.SUB_ASSIGN {
@@ -964,7 +1184,8 @@ func (t *tr) simple(e *em, s ast.Stmt) {
 // assigned collects the variables declared outside `n` that are assigned inside it.
 func (t *tr) assigned(n ast.Node) []*types.Var {
 	set := map[*types.Var]bool{}
-	mark := func(x ast.Expr) {
+	var mark func(x ast.Expr)
+	mark0 := func(x ast.Expr) {
 		switch l := x.(type) {
 		case *ast.Ident:
 			if o, ok := t.info.Uses[l].(*types.Var); ok {
@@ -977,6 +1198,14 @@ func (t *tr) assigned(n ast.Node) []*types.Var {
 				}
 			}
 		}
+	}
+	mark = func(x ast.Expr) {
+		// x[i] = v changes x (the translated functions own their slices); likewise a method called on an element
+		if ix, ok := x.(*ast.IndexExpr); ok {
+			mark(ix.X)
+			return
+		}
+		mark0(x)
 	}
 	ast.Inspect(n, func(m ast.Node) bool {
 		switch v := m.(type) {
@@ -996,6 +1225,9 @@ func (t *tr) assigned(n ast.Node) []*types.Var {
 			for _, a := range v.Args {
 				if _, isPtr := t.info.Types[a].Type.(*types.Pointer); isPtr {
 					mark(a)
+				}
+				if nn, ok := t.info.Types[a].Type.(*types.Named); ok && nn.Obj().Pkg() != nil && nn.Obj().Pkg().Path() == "io" && nn.Obj().Name() == "Writer" {
+					mark(a) // the writer's state advances
 				}
 			}
 		}
@@ -1133,9 +1365,9 @@ func (t *tr) stmts(e *em, list []ast.Stmt, up *kont, lc *loopCtx) {
 		inner.state = t.assigned(&ast.BlockStmt{Lbrace: v.Body.Lbrace, List: append(append([]ast.Stmt{}, v.Body.List...), postList(v.Post)...), Rbrace: v.Body.Rbrace})
 		t.loop(e, inner, v.Cond, nil, v.Body, k, lc)
 	case *ast.RangeStmt:
-		if v.Key != nil {
+		if v.Key != nil && v.Value != nil {
 			if id, ok := v.Key.(*ast.Ident); !ok || id.Name != "_" {
-				die(t.pos(s), "range with a key")
+				die(t.pos(s), "range with a key and a value")
 			}
 		}
 		if v.Tok != token.DEFINE {
@@ -1145,6 +1377,9 @@ func (t *tr) stmts(e *em, list []ast.Stmt, up *kont, lc *loopCtx) {
 		for _, sv := range t.assigned(v.Body) {
 			// the value variable is bound anew in every iteration: not part of the loop's state
 			if id, ok := v.Value.(*ast.Ident); ok && t.info.Defs[id] == types.Object(sv) {
+				continue
+			}
+			if id, ok := v.Key.(*ast.Ident); ok && t.info.Defs[id] == types.Object(sv) {
 				continue
 			}
 			inner.state = append(inner.state, sv)
@@ -1460,6 +1695,10 @@ func (t *tr) loop(e *em, inner *loopCtx, cond ast.Expr, rng *ast.RangeStmt, body
 			o := t.info.Defs[id].(*types.Var)
 			b.line("let %s ← idx %s %s", t.nameOf(o), rangeOver, inner.hid)
 		}
+		if id, ok := rng.Key.(*ast.Ident); ok && id.Name != "_" && rng.Value == nil {
+			// for i := range xs: the key is the position
+			b.line("let %s : Int := %s", t.nameOf(t.info.Defs[id]), inner.hid)
+		}
 	} else if cond != nil {
 		c := t.expr(b, cond)
 		b.line("if %s then do", c)
@@ -1570,6 +1809,17 @@ func (t *tr) findNilable(fd *ast.FuncDecl, sig *types.Signature) {
 	})
 }
 
+// isIO: a parameter that is handed in and back: a pointer, or an io.Writer (whose state advances)
+func (t *tr) isIO(v *types.Var) bool {
+	if _, ok := v.Type().(*types.Pointer); ok {
+		return true
+	}
+	if n, ok := v.Type().(*types.Named); ok && n.Obj().Pkg() != nil && n.Obj().Pkg().Path() == "io" && n.Obj().Name() == "Writer" {
+		return true
+	}
+	return false
+}
+
 func (t *tr) function(out *em, fd *ast.FuncDecl, leanName string) {
 	obj := t.info.Defs[fd.Name].(*types.Func)
 	sig := obj.Type().(*types.Signature)
@@ -1594,11 +1844,29 @@ func (t *tr) function(out *em, fd *ast.FuncDecl, leanName string) {
 	}
 	for i := 0; i < sig.Params().Len(); i++ {
 		p := sig.Params().At(i)
-		if _, ok := p.Type().(*types.Pointer); ok {
+		if t.isIO(p) {
 			t.inouts = append(t.inouts, p)
 		}
 		params = append(params, fmt.Sprintf("(%s : %s)", t.nameOf(p), t.varType(p, fd)))
 	}
+	// how callers use it
+	fs := &fsig{nres: sig.Results().Len()}
+	mod := map[*types.Var]bool{}
+	for _, v := range t.assigned(fd.Body) {
+		mod[v] = true
+	}
+	if r := sig.Recv(); r != nil {
+		if _, ok := r.Type().(*types.Pointer); ok {
+			fs.recvIO, fs.recvMod = true, mod[r]
+		}
+	}
+	for i := 0; i < sig.Params().Len(); i++ {
+		p := sig.Params().At(i)
+		fs.paramIO = append(fs.paramIO, t.isIO(p))
+		_, isPtr := p.Type().(*types.Pointer)
+		fs.paramMod = append(fs.paramMod, t.isIO(p) && (mod[p] || !isPtr))
+	}
+	t.sigs[leanName] = fs
 	for i := 0; i < sig.Results().Len(); i++ {
 		t.results = append(t.results, sig.Results().At(i))
 	}
@@ -1617,6 +1885,11 @@ func (t *tr) function(out *em, fd *ast.FuncDecl, leanName string) {
 	}
 	for i := 0; i < sig.TypeParams().Len(); i++ {
 		tps += fmt.Sprintf("{%s : Type} [Inhabited %s] ", sig.TypeParams().At(i).Obj().Name(), sig.TypeParams().At(i).Obj().Name())
+	}
+	for i := 0; i < sig.Params().Len(); i++ {
+		if t.leanType(sig.Params().At(i).Type(), fd) == "(Writer σ)" && !strings.Contains(tps, "{σ : Type}") {
+			tps += "{σ : Type} "
+		}
 	}
 	t.tpDecl = tps
 	out.line("def %s %s(fuel : Nat) %s : GoM (%s) := do", leanName, tps, strings.Join(params, " "), t.rho())
@@ -1660,7 +1933,7 @@ func (t *tr) structDecl(out *em, name string, st *types.Struct) {
 		out.line("  %s : %s", fieldName(f.Name()), ty)
 	}
 	if !fn {
-		out.line("deriving DecidableEq, Repr")
+		out.line("deriving DecidableEq, Repr, Inhabited")
 	}
 	out.line("")
 }
@@ -1691,6 +1964,7 @@ func main() {
 	known := map[string]bool{}
 	checked := map[string]*types.Package{}
 	declared := map[string]bool{} // structures emitted by an earlier module
+	sigs := map[string]*fsig{}
 	var outs []string
 	for _, tg := range targets {
 		fset := token.NewFileSet()
@@ -1712,7 +1986,7 @@ func main() {
 		conf := types.Config{Importer: chain{checked, importer.ForCompiler(fset, "source", nil)}, Error: func(error) {}} // a partial package: unresolved names elsewhere are not our concern
 		pkg, _ := conf.Check(tg.dir, fset, files, info)
 		checked["github.com/tmaxmax/go-sse/"+tg.dir] = pkg
-		t := &tr{fset: fset, info: info, pkg: pkg, known: known, nilable: map[types.Object]bool{}, structs: map[string]*types.Struct{}, generic: map[string]int{}, genericBinders: map[string]string{}}
+		t := &tr{fset: fset, info: info, pkg: pkg, known: known, nilable: map[types.Object]bool{}, structs: map[string]*types.Struct{}, generic: map[string]int{}, genericBinders: map[string]string{}, sigs: sigs, files: files}
 		decls := map[string]*ast.FuncDecl{}
 		for _, f := range files {
 			for _, d := range f.Decls {
